@@ -7,6 +7,9 @@ SPEC = {
     "theorem_modules": ["GluonModel.Theorems.C11"],
     "correspondences": [
         {"dialect": "parsebad", "quick_n": 6000, "thorough_n": 300000, "judge": "judge-c11-parse"},
+        # the reader loop of startCommandReader over several lines (Parse / ConsumeInvalidInput /
+        # LastParsedTag / LastParsedCommand): the parser API the session-loop model builds on
+        {"dialect": "parsen", "quick_n": 3000, "thorough_n": 100000},
     ],
     "oracles": [],
     "trusted_base": [
@@ -18,6 +21,6 @@ SPEC = {
         "Go runtime limits (stack size, GC) are outside the model; recursion depth is stated as a function of the input (#18), not as 'fits the stack'",
         "a read error other than end of input, and a failing continuation callback, are not modelled",
     ],
-    "explanation": "parser part: termination (with the ParseQuoted-at-EOF exception proved as a witness), absence of Go panics and recursion-depth theorems over the fuel-explicit parser model; the model is tied to the real parser on malformed streams by differential testing; the judge flags hang / panic / non-parser errors of the real parser",
-    "coverage_note": "parser part only; the session loop (one completion per line, 20 errors close) is not covered by these theorems",
+    "explanation": "parser part: parse_terminates at full strength (every byte string, fuel linear in the input length: any fuel > |input|, the driver uses 2|input|+16), parse_no_panic, parse_outcomes (command / *rfcparser.Error / io.EOF inside a literal, nothing else), depth_le_input + depth_unbounded (#18: recursion depth of parseSearchKey is bounded by the input length and by nothing smaller) over the fuel-explicit parser model; regression theorems and corpus for the repaired #7 (quoted string at EOF / over CRLF) and #17 ({0}, oversize literal); the model is tied to the real parser on malformed streams by differential testing (same outcome class, same error token type, same number of consumed bytes); the judge flags hang / panic / non-parser errors of the real parser",
+    "coverage_note": "parser part only; the session loop (one completion per line, 20 errors close) is not covered by these theorems; not covered: Go stack exhaustion by deep nesting (#18 is stated, not excluded), memory retained per command (retained_le_consumed not proved)",
 }
